@@ -161,7 +161,8 @@ impl Wait for YieldingWait {
         }
         loop {
             yield_now();
-            for _ in 0..self.spins_yield {
+            // check at least once per yield, also when spins_yield is zero
+            for _ in 0..::std::cmp::max(self.spins_yield, 1) {
                 if check(seq, w_pos, wc) {
                     return;
                 }
